@@ -7,23 +7,24 @@ From BM Require Export Cipher.
 
 Definition rotl3 (b : N) : N := ((b * 8) mod 256 + b / 32)%N.
 Definition rotr3 (b : N) : N := (b / 8 + (b mod 8) * 32)%N.
-Definition keyb (k : list N) (i : nat) : N := nth (i mod 8) k 0%N.
+Definition keyb (k : list N) (i : N) : N := nth (N.to_nat (i mod 8)) k 0%N.
 
-Fixpoint mapi_aux {A B} (f : nat -> A -> B) (i : nat) (l : list A) : list B :=
-  match l with [] => [] | a :: l' => f i a :: mapi_aux f (S i) l' end.
-Definition mapi {A B} (f : nat -> A -> B) (l : list A) : list B := mapi_aux f 0 l.
+(* map with the (binary) index of each element *)
+Fixpoint mapi_aux {A B} (f : N -> A -> B) (i : N) (l : list A) : list B :=
+  match l with [] => [] | a :: l' => f i a :: mapi_aux f (i + 1)%N l' end.
+Definition mapi {A B} (f : N -> A -> B) (l : list A) : list B := mapi_aux f 0%N l.
 
 Definition rot_left1 {A} (x : list A) : list A := skipn 1 x ++ firstn 1 x.
 Definition rot_right1 {A} (x : list A) : list A := skipn (length x - 1) x ++ firstn (length x - 1) x.
 
 Definition toyE (k : list N) (x : block) : block :=
-  mapi (fun i b => rotl3 ((N.lxor b (keyb k i) + N.of_nat (7 * i + 13)) mod 256)%N) (rot_left1 x).
+  mapi (fun i b => rotl3 ((N.lxor b (keyb k i) + (7 * i + 13)) mod 256)%N) (rot_left1 x).
 
 Definition toyD_inv (k : list N) (y : block) : block :=
-  rot_right1 (mapi (fun i b => N.lxor ((rotr3 b + 256 - (N.of_nat (7 * i + 13)) mod 256) mod 256)%N (keyb k i)) y).
+  rot_right1 (mapi (fun i b => N.lxor ((rotr3 b + 256 - ((7 * i + 13)) mod 256) mod 256)%N (keyb k i)) y).
 
 Definition toyD_unrel (k : list N) (y : block) : block :=
-  mapi (fun i b => ((N.lxor b (keyb k i) + N.of_nat (3 * i + 1)) mod 256)%N) y.
+  mapi (fun i b => ((N.lxor b (keyb k i) + (3 * i + 1)) mod 256)%N) y.
 
 Inductive dmode := DInv | DUnrel.
 
